@@ -336,7 +336,7 @@ without. I confirmed each in a scratch worktree (`tools/keep_mutant.sh`: patch a
 demo passes without / fails with) and ran the checks with `git -C /repo apply` ... `git -C /repo
 checkout -- .`. None is committed to `/repo`. "First MISSED" marks the changes my checks did not
 catch when they were delivered, with what was strengthened. "NOT CAUGHT" marks the changes of
-the last round (C06-6, C10-5) that are
+the last round (C10-5) that are
 still missed: each entry says which dimension the specification lacks; they are the next work items.\n""")
 w("| change | what it breaks | detected by |\n|---|---|---|")
 for pid in sorted(seeded):
